@@ -7,7 +7,7 @@
    every event payload type, both retry settings, every start block, every cut of the block range (MaxCertSize). *)
 From Coq Require Import String.
 From Coq Require Import NArith List Bool.
-From Verif Require Import Base.Bytes Model.Reconcile Model.AggsenderProtocol Proofs.AggsenderProofs Gen.SourceFacts.
+From Verif Require Import Base.Bytes Model.BridgeStore Model.Reconcile Model.AggsenderProtocol Proofs.AggsenderProofs Gen.SourceFacts.
 Import ListNotations.
 Open Scope N_scope.
 Open Scope list_scope.
@@ -91,6 +91,15 @@ Theorem C02_local_view_is_agglayer_view : forall (s : stateT) sb rc, Inv s -> bu
   forall r, In r (rows s) -> exists c, In c (agg s) /\ a_id c = cid r /\ a_height c = height r /\ a_st c = st r.
 Proof. exact (local_view_is_agglayer_view hash bev cev b_leaf b_dc tree start_block start_ler cert_type repr root_of). Qed.
 
+(* A replacement's previous exit root does not depend on whether the row in error stores it (rows rebuilt at start-up
+   from an Agglayer header without prev_local_exit_root do not): getNextHeightAndPreviousLER's fallback - start LER at
+   height 0, else the new LER of the settled row below - returns the same root on a gap-free chain. Inv does not mention
+   the stored field, so every theorem of this file holds for such tables too. *)
+Theorem C02_inerror_prev_ler_fallback : forall l sy (top : row hash bev cev) rest,
+  chain_ok hash bev cev b_leaf start_block start_ler root_of l sy (top :: rest) -> st top = InError ->
+  next_height_ler hash bev cev start_ler (top :: rest) (Some top) = Some (height top, prev top).
+Proof. exact (inerror_prev_ler hash bev cev b_leaf tree t_add start_block start_ler repr root_of t_add_repr t_add_root). Qed.
+
 (* Second sentence: no certificate is submitted while an earlier one is still undecided at the Agglayer *)
 Theorem C02_no_submission_while_undecided : forall (s : stateT) e s' subs,
   Inv s -> step s e = (s', subs) -> subs <> [] -> all_closed (agg s).
@@ -153,6 +162,36 @@ Proof.
 Qed.
 End C02.
 
+(* ---- process restarts: PARTIAL.
+   Restart (same or lost certificate database), the start-up reconciliation and a crash between "accepted by the
+   Agglayer" and "row stored" are events of the EXECUTABLE model only (Model/AggsenderProtocol.v xrstep; the
+   reconciliation itself is Model/Reconcile.v recover, proved in C13). They are compared event by event with the real
+   code (new AggSender objects, real CheckInitialStatus iteration) and the certificates submitted after a recovery are
+   judged by spec_c02 / spec_c03 with the same naive references. What is proved: the theorems above hold from ANY state
+   satisfying Inv, so they cover every restart-free stretch that starts in such a state; a table the reconciliation
+   rebuilt with the certificate's own range and exit roots (C13_recovery_refines_nocrash, C13_metadata_range) is one,
+   with or without stored previous LER (C02_inerror_prev_ler_fallback). What is NOT proved (no theorem
+   C02_restart_preserves_Inv): that xrstep's restart events re-establish Inv - after a lost database the table holds
+   only the latest certificate, which the heights-from-0 chain of Inv does not describe. On a restart-free schedule
+   xrstep IS step: *)
+Example C02_restart_free_is_step : forall retry start ler aggprev (c : xstate) info (e : xevent),
+  xrstep retry start ler aggprev (XR c info false) (RCore e) =
+  (XR (fst (xstep retry start ler c e)) (info ++ info_of (snd (xstep retry start ler c e))) false, snd (xstep retry start ler c e)).
+Proof. intros. unfold xrstep. cbn [xr_recovering xr_core xr_info]. destruct e; destruct (xstep retry start ler c _); reflexivity. Qed.
+(* the executable restart events on a concrete run (toy leaves 11, 12): the first certificate is accepted but the process
+   dies before storing it; the restart rebuilds the row from the Agglayer's header (no previous LER in it); the
+   certificate goes InError; the replacement keeps height 0, first block 1 and the start LER *)
+Example C02_nonvacuous_restart :
+  let b k := mkB 0 k 0 1 5 2 6 (1000 + k) [] 0 in
+  let run := fold_left (fun acc e => let '(s, subs) := xrstep true 0 empty_ler false (fst acc) e in (s, snd acc ++ subs)) in
+  let '(s, subs) := run [RCore (NewBlock 0 [b 0] []); RCrashTick true 0; RCore (AggMove 0 InError); RCore (NewBlock 0 [b 1] []);
+                         RCore (StatusTick 0); RRestart true]
+                        (XR xstate_empty [] false, []) in
+  map (fun sb => (s_height sb, s_from sb, s_to sb, s_retry sb, N.eqb (s_prev sb) empty_ler)) subs = [(0, 1, 1, 0, true); (0, 1, 2, 1, true)] /\
+  map (fun r => (height r, cid r, st r, from r, to r, r_hasprev r)) (rows (xr_core s)) = [(0, 1, Pending, 1, 2, false)] /\
+  xr_recovering s = false.
+Proof. vm_compute. repeat split. Qed.
+
 (* ---- non-vacuity: the tree hypotheses are met by the reference tree for ANY root function; a concrete schedule
    (two deposits and a claim, certificate 0 goes InError, is replaced at once with the same height and first block,
    the replacement settles, a new block, the next epoch submits height 1 from the settled one's new root) starts from
@@ -186,6 +225,7 @@ Print Assumptions C02_reachable_Inv.
 Print Assumptions C02_submissions_well_formed.
 Print Assumptions C02_built_ok_unfolds.
 Print Assumptions C02_local_view_is_agglayer_view.
+Print Assumptions C02_inerror_prev_ler_fallback.
 Print Assumptions C02_no_submission_while_undecided.
 Print Assumptions C02_settled_exactly_once.
 Print Assumptions C02_every_schedule.
